@@ -8,7 +8,9 @@ import sys
 sys.path.insert(0, '.')
 import z3
 from vfw.core import get_program
-for name in ('vm', 'vm-dbg'):
+for name in ('vm', 'vm-dbg', 'vm-nan', 'core', 'core-nan'):
     p = get_program(name)
     print(name, len(p.fns), 'MIR functions')
+for name in ('core', 'core-nan'):
+    print(name, 'Value layout', get_program(name).layout('Value'))
 PY
